@@ -690,8 +690,6 @@ write_struct_info (const gchar  *namespace,
   if (func)
     xml_printf (file, " free-function=\"%s\"", func);
 
-  write_attributes (file, (GIBaseInfo*) info);
-
   size = g_struct_info_get_size (info);
   if (file->show_all && size >= 0)
     xml_printf (file, " size=\"%d\"", size);
@@ -699,6 +697,9 @@ write_struct_info (const gchar  *namespace,
   foreign = g_struct_info_is_foreign (info);
   if (foreign)
     xml_printf (file, " foreign=\"1\"");
+
+  /* attributes are child elements: they follow the XML attributes of the record */
+  write_attributes (file, (GIBaseInfo*) info);
 
   n_elts = g_struct_info_get_n_fields (info) + g_struct_info_get_n_methods (info);
   if (n_elts > 0)
